@@ -56,4 +56,14 @@ CHECKS["C02"] = dict(
     design="5 C02", note=L3_NOTE + " The specification's prediction is used only to select which literals are varied.",
     technique="TLA+ abstraction soundness: k concretisations per TLC-generated abstract case, byte-equality of real CLI outputs")
 
+CHECKS["C14"] = dict(
+    level="model_checking",
+    text="Grammar-mode states in which up to 2 (thorough 3) user field names on the path are drawn from {non-matching, matching, a dotted "
+         "name that matches only unanchored regexps}, with every operator wrapper / array / sub-document nesting of the grammar between "
+         "name and literal; replayed through the real CLI with anchored, substring and case-insensitive regexps. Three-valued oracle "
+         "written from the statement (must-redact / must-keep / open for search stages and '$field' siblings); the walker "
+         "specification's SelectiveExact prediction is compared as drift.",
+    design="5 C14", note=L3_NOTE,
+    technique="TLA+ grammar-mode cases with matching/non-matching names (TLC) replayed on the real CLI; three-valued path oracle")
+
 NOT_YET = {}
